@@ -100,7 +100,12 @@ def relLoopC (W : World) (v : Variant) (first : Nat) : Nat → List Nat → VSta
                 | .error x => (.error x, c)
                 | .ok () => relLoopC W v first fuel rest { st with policy := some newP } c'
               else relLoopC W v first fuel rest { st with policy := some newP } c'
-          | none => relLoopC W v first fuel rest { st with policy := some newP } c'
+          | none =>
+            if !v.f4_inRangeNotSelfVerified then
+              match liftP newP.verify with
+              | .error x => (.error x, c)
+              | .ok () => relLoopC W v first fuel rest { st with policy := some newP } c'
+            else relLoopC W v first fuel rest { st with policy := some newP } c'
       else if e.ref == attestationsRef then
         match W.attAt j with
         | none => (.error .other, c)
